@@ -191,11 +191,15 @@ inductive SetOutcome
   | ok (ov : Overrides) (found : Bool)
   | crash                     -- `strcmp( NULL, name )`
 
+/-- may `ERRORset_warning` touch entry `j` (the severity test, when the code has one — regenerated) -/
+def switchable (j : Nat) : Bool :=
+  !LibErrors.setWarningSeverityGuard || decide (severityOf j ≤ LibErrors.SEVERITY_WARNING)
+
 /-- the loop of `ERRORset_warning` from index `i` on, `n` iterations left -/
 def setWarningLoop (guard : Bool) (name : String) (b : Bool) : Nat → Nat → Overrides → Bool → SetOutcome
   | 0, _, ov, found => .ok ov found
   | n + 1, i, ov, found =>
-    if severityOf i ≤ LibErrors.SEVERITY_WARNING then
+    if switchable i then
       match classOf i with
       | none => if guard then setWarningLoop guard name b n (i + 1) ov found else .crash
       | some c =>
